@@ -41,16 +41,33 @@ func c06Run(hist []xletter) explore.Result { return c06RunLead(hist, 0) }
 // c06RunLead: every message is delivered together with the first lead bytes of the NEXT one (lead < 0: all but
 // its last |lead| bytes) — the way a pipelining client's stream is cut by the transport. The reply to a message
 // is due as soon as the message is complete: it must not wait for the rest of the following message.
-func c06RunLead(hist []xletter, lead int) explore.Result {
-	var res explore.Result
-	rec := &script.Rec{}
-	one, err := harness.StartOne(rec.ParseFn())
+func c06RunLead(hist []xletter, lead int) explore.Result { return c06RunNb(hist, lead, nil) }
+
+// c06RunNb: the history runs while another connection of the same server is parked in some protocol state (e.g. in
+// the middle of a COPY, waiting for its client): every reply is still "delivered without waiting for further
+// client input" - of anybody.
+func c06RunNb(hist []xletter, lead int, nb *neighbour) (res explore.Result) {
+	rec := &script.Rec{Extra: copyHandler}
+	srv, err := harness.NewServer(rec.ParseFn())
 	if err != nil {
 		res.Engine = err.Error()
 		return res
 	}
+	defer srv.Stop()
+	if nb != nil {
+		nc, problem := startNeighbour(srv, *nb)
+		if problem != "" {
+			res.Engine = problem
+			return res
+		}
+		defer func() {
+			if !srv.AnyWedged() {
+				finishNeighbour(&res, nc, *nb, fmt.Sprintf("history %v", histNames(hist)))
+			}
+		}()
+	}
+	one := &harness.One{Server: srv, Conn: srv.Connect()}
 	rec.Conn = one.C
-	defer one.Stop()
 	out, _ := one.Step(pgproto.Startup("user", "u"))
 	if !strings.HasSuffix(harnessKinds(out), "Z") {
 		res.Engine = "startup failed: " + harnessKinds(out)
@@ -202,6 +219,22 @@ func c06Enumerate(tier string, emit explore.Emit) {
 					return map[string]any{"history": histNames(hist), "bytes_of_next_message_delivered_with_each": lead}
 				},
 				Run: func() explore.Result { return c06RunLead(hist, lead) }})
+		})
+	}
+	// every history of <= 2 core letters while a neighbouring connection is parked (inside COPY-in, discarding, ...)
+	for _, nb := range neighbourStates() {
+		nb := nb
+		forShapes(len(core), 2, func(sh []int) {
+			if len(sh) == 0 {
+				return
+			}
+			hist := make([]xletter, len(sh))
+			for i, s := range sh {
+				hist[i] = core[s]
+			}
+			emit(explore.Case{Family: "neighbour", Size: 40 + len(hist),
+				Desc: func() any { return map[string]any{"history": histNames(hist), "neighbouring_connection": nb.Name} },
+				Run:  func() explore.Result { return c06RunNb(hist, 0, &nb) }})
 		})
 	}
 	// two connections on one server, message granularity: the error / skipping state of one
